@@ -129,7 +129,7 @@ def run_case(rs, ctx):
     kind = gen.CF_KINDS[ctx.index % 6]
     labels = ["int", "str", "float", "negint"][(ctx.index // 6) % 4]
     nj = int(gen.pick(rs, [1, 1, 1, 2, 3, -1]))
-    cfg = gen.gen_cfg(rs, kind, "none", labels=labels, n_arms=int(rs.integers(1, 7)), n_jobs=nj,
+    cfg = gen.gen_cfg(rs, kind, "none", labels=labels, n_arms=int(gen.pick(rs, [1, 2, 3, 4, 5, 6, 2, 3, 4, 12, 19])), n_jobs=nj,
                       backend="threading" if nj != 1 and rs.integers(2) else None)
     rk = gen.reward_kind(cfg)
     floaty = kind in ("eg", "ucb", "sm") and rs.integers(4) == 0
